@@ -203,6 +203,18 @@ func (c *Ctx) checkFormulas() {
 			got := tm.Of(o)
 			ok := sym.Equal(got, want) || sym.Equal(anonymise(got), anonymise(want))
 			run.Oblige(ok)
+			// the indicators are generic over helper.Number. Where the documented formula divides by
+			// configuration constants only (averages, midpoints: meaningful on integer series), the
+			// code must agree with it in integer arithmetic too: nothing moved across a division
+			if ok && constDenominators(want) {
+				ki, kw := intSafeKey(anonymise(got)), intSafeKey(anonymise(want))
+				run.Count("integer_safe_formulas", 1)
+				run.Oblige(ki == kw)
+				if ki != kw {
+					run.Violate(report.Finding{Rule: "formula", Site: site, Detail: "integer arithmetic: " + short(ki, 140), Pos: c.P.Pos(fi.Decl.Pos()),
+						Message: fmt.Sprintf("over the rationals the value computed equals the documented formula (%s), but the indicator is generic over integer element types too, where the order of multiplication and division changes the result (1/period is 0): computed %s ; documented %s", sp.Doc, short(ki, 200), short(kw, 200))})
+				}
+			}
 			run.Sample(map[string]string{"obligation": "value(" + site + ") = " + sp.Doc, "verdict": fmt.Sprint(ok)})
 			if !ok {
 				run.Violate(report.Finding{Rule: "formula", Site: site, Detail: short(sym.CanonString(got), 160), Pos: c.P.Pos(fi.Decl.Pos()),
@@ -1596,4 +1608,43 @@ func anonymise(e sym.Expr) sym.Expr {
 		return sym.Call{Fn: fn, Args: as}
 	}
 	return e
+}
+
+// constDenominators: every division in the term divides by numbers and configuration values only.
+func constDenominators(e sym.Expr) bool {
+	ok := true
+	var walk func(e sym.Expr)
+	walk = func(e sym.Expr) {
+		switch x := e.(type) {
+		case sym.Bin:
+			if x.Op == "/" {
+				vars := map[string]bool{}
+				sym.Vars(x.R, vars)
+				for v := range vars {
+					if !strings.HasPrefix(v, "cfg:") {
+						ok = false
+					}
+				}
+				if hasCall(x.R) {
+					ok = false
+				}
+			}
+			walk(x.L)
+			walk(x.R)
+		case sym.Neg:
+			walk(x.X)
+		case sym.Call:
+			if x.Fn == "pow" || x.Fn == "sqrt" {
+				ok = false // real-valued by nature
+			}
+			for _, a := range x.Args {
+				walk(a)
+			}
+		case sym.Ite:
+			walk(x.A)
+			walk(x.B)
+		}
+	}
+	walk(e)
+	return ok
 }
